@@ -20,3 +20,11 @@ CLAIMS['C14'] = dict(
           'every successful path; pointer size provenance. Symbolic per-path identities hold for every input; numeric totals and the truth of a dedup answer\'s '
           'byte count (C05) are not decided.'),
     note='Inner loops of the accounting loop must not contain tracked updates (checked; fail-closed).')
+CLAIMS['C20'] = dict(
+    technique='static analysis: lock-guard live-range analysis on MIR (in-guard membership and ordering), cut-reachability pairing, def-use provenance',
+    text=('Decides the lock-region and ordering facts that close the lost-wakeup and remove-vs-join windows: store-then-notify inside the result write guard; '
+          'waiter registration created inside the result read guard on the no-result edge and awaited before reading; owner marks and completes on every Ready path and '
+          'its drop handler completes on the not-completed edge; one spawn per created call after get_future; the creator always removes the call; created=true only '
+          'after insert under the map mutex; no synchronous guard across a yield. Facts about what lies inside which guard hold for every schedule. '
+          'Liveness as a whole (runtime fairness, cancellation of the owning caller) is not decided.'),
+    note='Trusted: tokio Notify::notified() registers for notify_waiters() at creation (documented); parking_lot RwLock mutual exclusion.')
